@@ -4,6 +4,8 @@ import (
 	"math"
 	"sync"
 	"time"
+
+	"github.com/internetarchive/Zeno/internal/pkg/verifhook"
 )
 
 const (
@@ -52,10 +54,12 @@ func newTokenBucket(capacity, refillRate float64) *tokenBucket {
 // Wait blocks until a token is available.
 func (tb *tokenBucket) Wait() {
 	for {
+		verifhook.At("rl.poll")
 		tb.mu.Lock()
 		tb.refill()
 		if tb.tokens >= 1 {
 			tb.tokens--
+			verifhook.Obs("rl.take", tb.tokens, tb.capacity, tb.refillRate, tb.idealRate, tb.penaltyUntil, tb.failureCount)
 			tb.mu.Unlock()
 			return
 		}
@@ -85,5 +89,6 @@ func (tb *tokenBucket) refill() {
 	if elapsed > 0 {
 		tb.tokens = math.Min(tb.capacity, tb.tokens+elapsed*tb.refillRate)
 		tb.lastRefill = now
+		verifhook.Obs("rl.refill", tb.tokens, tb.capacity, tb.refillRate, tb.idealRate, tb.penaltyUntil, tb.failureCount)
 	}
 }
